@@ -90,10 +90,10 @@ MANIFEST = dict(
         "(gauss_kernelInputDerivs, all points / gamma / coefficients) and, Props/C05d.lean, for the polynomial kernel of every degree and offset "
         "(poly_kernelInputDerivs; degree 1 offset 0 = linear, offset 0 = monomial), closed under scaling and sums (scaled_kernelInputDerivs, "
         "add_kernelInputDerivs: ScaledKernel, WeightedSumKernel with fixed weights); instantiated on a four-layer chain. END TO END for the Gaussian base "
-        "kernel (Props/C05e-f): the list-based executable gaussInputDeriv IS gaussD1 entry by entry (gaussInputDeriv_entry), the transposed second call is "
+        "kernel (Props/C05e-g): the list-based executable gaussInputDeriv IS gaussD1 entry by entry (gaussInputDeriv_entry), the transposed second call is "
         "gaussD2, the backward pass reads only in-range coefficients (backward_weight_entry_congr, by uniqueness of derivatives), hence "
         "gauss_modelKernel_weight_derivative_lists: the very vector modelKernelParamGrad computes from the lists C, X1, X2 (what drv_c05 prints for mn pderiv "
-        "and what is compared with the C++) is at every weight position the derivative of sum_ij C_ij exp(-gamma |g(x1_i) - g(x2_j)|^2). Correspondence: chains of linear / "
+        "and what is compared with the C++) is at every weight position (gauss_modelKernel_offset_derivative_lists: and at every offset position) the derivative of sum_ij C_ij exp(-gamma |g(x1_i) - g(x2_j)|^2); non-vacuity example on concrete lists (3 points against 2). Correspondence: chains of linear / "
         "rectifier layers with integer weights over exact base kernels EXACTLY (Rat) and bit for bit (Float): single, block, stateful block, feature "
         "distance, Gram over partitions, pderiv on blocks x1 != x2 of DIFFERENT sizes, gderivx, flags, setParameterVector in the middle (kernel | "
         "model parameters, frozen layers skipped); smooth chains (tanh / logistic / softmax / normalizer, any base kernel incl. Gaussian / ARD / sums) "
@@ -114,7 +114,7 @@ MANIFEST = dict(
        "The exact correspondence of the composed derivative code needs exactly representable values: Gaussian/ARD leaves inside composed kernels, non-power-of-two weights and NormalizedKernel on general points are judged by the finite-difference oracle (2e-5) and the stale-output oracle only. "
        "GaussianTaskKernel: PSD-ness of the task table (a Gaussian of RKHS distances of mean elements) is not proved (multiTask_psd takes it as hypothesis; the harness checks eigenvalues of MultiTaskKernel Gram matrices); MklKernel is exercised with two vector components (the fusion machinery is generic in the tuple); MissingFeaturesKernelExpansion is not reached (C07/C18 own the SVM models); CSvmDerivative is C07's. "
        "ModelKernel over chains: the theorems are stated on index functions for a base kernel given as a function with the KernelInputDerivs hypothesis (proved for the Gaussian and polynomial kernels, their scalings and sums); "
-       "the end-to-end list-level statement is proved for the Gaussian base kernel and for weights (offsets: function level); that Kern.inputGradA of EVERY kernel expression satisfies KernelInputDerivs is not proved (the partial-derivative theorems of Props/C05(b) + the exact ideriv correspondence + finite differences tie it); "
+       "the end-to-end list-level statement is proved for the Gaussian base kernel (weights and offsets); for polynomial / scaled / summed base kernels the statement is at function level (KernelInputDerivs instances); that Kern.inputGradA of EVERY kernel expression satisfies KernelInputDerivs is not proved (the partial-derivative theorems of Props/C05(b) + the exact ideriv correspondence + finite differences tie it); "
        "rectifier / fast-sigmoid layers carry the NoKink hypothesis of the chain theorems; smooth chains are not compared bit for bit (the model's matrix products are BLAS calls: 1-ulp differences were measured) but by the toleranced oracles; "
        "exact chains are limited to two dense layers of width <= 2 with weights in {-1,0,1} (values must stay exactly representable); dropout layers and nested ConcatenatedModels inside a ModelKernel are not generated (C04 owns them). "
        "Thread sweep: a data race is detected only if it manifests in one of the 7 assemblies per op (about 250 gramt ops per quick run; no TSan build here - C20 has one); "
@@ -144,8 +144,8 @@ FINISH = dict(level="proof",
                    "+ in-place reconfigurations (setfactor / setparams / adaptall) with observations after each; non-trivial = composed kernel "
                    "(depth >= 1) or a Gram op with >= 2 batches; distinct = distinct op text")
 
-LAKE_TARGETS = ["SharkVerif.Props.C05", "SharkVerif.Props.C05b", "SharkVerif.Props.C05c", "SharkVerif.Props.C05d", "SharkVerif.Props.C05e", "SharkVerif.Props.C05f", "drv_c05"]
-PROPS = ["SharkVerif.Props.C05", "SharkVerif.Props.C05b", "SharkVerif.Props.C05c", "SharkVerif.Props.C05d", "SharkVerif.Props.C05e", "SharkVerif.Props.C05f"]
+LAKE_TARGETS = ["SharkVerif.Props.C05", "SharkVerif.Props.C05b", "SharkVerif.Props.C05c", "SharkVerif.Props.C05d", "SharkVerif.Props.C05e", "SharkVerif.Props.C05f", "SharkVerif.Props.C05g", "drv_c05"]
+PROPS = ["SharkVerif.Props.C05", "SharkVerif.Props.C05b", "SharkVerif.Props.C05c", "SharkVerif.Props.C05d", "SharkVerif.Props.C05e", "SharkVerif.Props.C05f", "SharkVerif.Props.C05g"]
 
 
 # ----------------------------------------------------------------------------- values
